@@ -251,6 +251,12 @@ def run_ensemble(case, mode, mapkind):
             s.SetConstraints(_constraint)
         if case.get("pen"):
             s.SetPenalty(_penalty)
+        if case.get("legacy_evals"):
+            from mystic.monitors import Monitor
+            legacy = Monitor()
+            for j in range(case["legacy_evals"]):
+                legacy([float(j)] * dim, 1000.0 + j)
+            s.SetEvaluationMonitor(legacy)
         if mapkind != "default":
             s.SetMapper(make_map(mapkind, st))
         if case.get("dist"):
@@ -493,7 +499,10 @@ def _oracle_state(case, st, rep, tagged, where, out, inst):
         if inst:
             out.append(fail("total_evals_is_sum", INSTANCE_SITE, INSTANCE_PAT, dict(total=rep["total"], real=real)))
         else:
-            add("total_evals_is_sum", "AbstractEnsembleSolver._total_evals", "total-not-real-calls", [rep["total"], real, rep["all_evals"], nreal])
+            pat = "total-not-real-calls"
+            if case.get("nested") == "DE2" and case.get("legacy_evals") and rep["total"] == real + case["legacy_evals"] * len(rep["all_evals"]):
+                pat = "total-not-real-calls:de2-counter-is-monitor-length"      # F13: each DE2 member counts the records already in the monitor it was given
+            add("total_evals_is_sum", "AbstractEnsembleSolver._total_evals", pat, [rep["total"], real, rep["all_evals"], nreal])
     elif tagged and rep["all_evals"] != nreal:
         add("total_evals_is_sum", "AbstractEnsembleSolver._all_evals", "member-counter-not-its-real-calls", [rep["all_evals"], nreal])
 
